@@ -868,6 +868,27 @@ def _internal_child(_job):
     got.clear()
     after = describe(_probe_routine(typelib.unmarshaller(U)))
     out["static_order_direct_mutation_changes_routines"] = after != cold_probe
+    # a caller who walks the graph of a type itself (graph.itertypes / graph.static_order are public) before the first routine for
+    # it is built: the routines built afterwards are those of a process that never looked (judged against the other spelling of the
+    # same type, which nobody walked)
+    out["graph_walk"] = []
+    pairs = [(dict[str, list[int]], typing.Dict[str, typing.List[int]]), (list[tuple[int, str]], typing.List[typing.Tuple[int, str]]),
+             (typing.Optional[list[float]], typing.Optional[typing.List[float]]), (set[int], typing.Set[int])]
+    for cold_t, walked_t in pairs:
+        for walk in (lambda t: [list(graph.itertypes(t)), list(graph.itertypes(t))], lambda t: [graph.static_order(t), list(graph.itertypes(t))]):
+            clear_all_caches()
+            cold = [describe(_probe_routine(typelib.unmarshaller(cold_t))), describe(_probe_routine(typelib.marshaller(cold_t))),
+                    describe(_probe_codec(typelib.codec(cold_t)))]
+            clear_all_caches()
+            walks = walk(walked_t)
+            if not walks[0]:
+                raise RuntimeError(f"harness: the first walk of {walked_t} is empty")
+            got = [describe(_probe_routine(typelib.unmarshaller(walked_t))), describe(_probe_routine(typelib.marshaller(walked_t))),
+                   describe(_probe_codec(typelib.codec(walked_t)))]
+            if got != cold:
+                k = next(i for i in range(3) if got[i] != cold[i])
+                out["graph_walk"].append([repr(walked_t), f"{('unmarshaller', 'marshaller', 'codec')[k]} built after the caller walked the graph "
+                                                          f"behaves unlike the one of a process that did not: {_short(got[k])} vs {_short(cold[k])}"])
     # string references: the routine caches are keyed by the bare string, refs._resolve_module_name by (string, None),
     # but what the string names depends on the caller's frame
     import types
@@ -1838,6 +1859,9 @@ def explore(ctx):
     for p in internal["public_paths"]:
         res.failures.append({"what": f"a cached mutable object is handed out: {p}", "input": {"path": p}})
     res.count("internal:static_order/cached_type_hints-unchanged-by-callers", 1 if not internal["internal_mutation"] else 0)
+    for T, what in internal.get("graph_walk", []):
+        res.failures.append({"what": f"{T}: {what}", "input": {"site": "graph-walk", "T": T}})
+    res.count("internal:routines-independent-of-earlier-graph-walks", 0 if internal.get("graph_walk") else 8)
     # graph.static_order is not an operation of C12's alphabet, but handing out the memoised list let a caller corrupt every
     # later routine (repaired by dd76572): a recurrence is reported
     if internal.get("static_order_direct_mutation_changes_routines"):
@@ -1874,6 +1898,10 @@ def witness(fid):
 def replay(failure):
     inp = failure["input"]
     core.import_typelib()
+    if inp.get("site") == "graph-walk":
+        o = iso.map_isolated(_internal_child, [None], timeout=120.0)[0]
+        print(json.dumps(o.get("graph_walk") if isinstance(o, dict) else o, indent=1, default=str)[:3000])
+        return bool(o.get("graph_walk")) if isinstance(o, dict) else True
     if "bare_case" in inp:
         o = iso.map_isolated(_bare_child, [tuple(inp["bare_case"])], timeout=60.0)[0]
         print(json.dumps({"case": inp["bare_case"], "observed": o}, indent=1, default=str))
